@@ -17,6 +17,9 @@ running the loop to quiescence:
                          HomeKitConnection object (same semaphore, same callers); no-op while connected
   ["LL"]                 connection_lost of abandoned transports (deferred while bytes were unsent) is delivered now
   ["C", r]               task r .cancel()
+  ["CD", r, n]           SAME loop turn: task r .cancel() and then, before r's task ran its clean-up, one read delivering
+                         the HTTP response n (model: Cancel r then Data [H n], merged into one step; generated for the
+                         oldest in-flight request, where the two coincide)
   ["A", dt]              virtual time advances dt ticks (1/4096 s)
   ["PC"] / ["PE"]        peer resets / peer half-closes (FIN);  ["PE", 1] / ["PC", 1]: the same while request bytes
                          are still UNSENT in the transport's write buffer (the accessory stopped reading):
@@ -468,6 +471,16 @@ def run_impl(hist, cap=1):
                     t = tasks.get(ev[1])
                     if t is not None:
                         t.cancel()
+                elif k == "CD":
+                    # SAME loop turn: caller r is cancelled and, before its task has run its clean-up (which closes
+                    # the transport), a response is read from the socket.  cancel() has already marked r's future
+                    # done; the response the accessory sent for r must be dropped, never handed to a younger request.
+                    t = tasks.get(ev[1])
+                    if t is not None:
+                        t.cancel()
+                    h, b = _msg_bytes("H", ev[2])
+                    assign("H", ev[2], is_open)
+                    tr.peer_send(ep.seal(h + b))
                 elif k == "A":
                     await vloop.sleep_ticks(ev[1])
                 elif k == "PC":
@@ -580,7 +593,7 @@ def oracle(hist, res, cap=None):
                                                                     raised=False, now=None))]
     for i, (ev, stp) in enumerate(all_steps):
         was_abandoned = abandoned
-        cancel_inflight = ev[0] == "C" and ev[1] in wrote and ev[1] not in done
+        cancel_inflight = ev[0] in ("C", "CD") and ev[1] in wrote and ev[1] not in done
         pending_written_before = {r: wt for r, wt in wrote.items() if r not in done}
         if ev[0] == "I" and i < len(hist):
             issued += 1
@@ -719,11 +732,25 @@ def ev_tok(ev):
         return "A%d" % ev[1]
     if k == "LC":
         return "LC"
+    if k == "CD":
+        return "C%d D:H%d" % (ev[1], ev[2])     # two model steps, merged again by parse_model_h
     return k          # I F PC PE R LL
 
 
 def model_line(cap, hist):
     return "crun %d %d " % (cap, T30) + " ".join(ev_tok(e) for e in hist)
+
+
+def parse_model_h(ans, hist):
+    """parse the driver's answer for model_line(cap, hist); a same-turn event (CD) is two model steps whose outputs
+    are merged into one harness step"""
+    groups = [2 if e[0] == "CD" else 1 for e in hist]
+    steps, state = parse_model(ans, sum(groups))
+    out, j = [], 0
+    for g in groups:
+        out.append([t for st in steps[j:j + g] for t in st])
+        j += g
+    return out, state
 
 
 def parse_model(ans, nsteps):
@@ -754,7 +781,7 @@ def gen_exhaustive(drv, cap, depth, rich, max_issue, max_frag, start=None, closi
         answers = drv.batch(lines)
         nxt = []
         for (h, meta), ans in zip(level, answers):
-            _, st = parse_model(ans, len(h))
+            _, st = parse_model_h(ans, h)
             i = len(h)
             letters = []
             if not st["open"]:
@@ -784,6 +811,8 @@ def gen_exhaustive(drv, cap, depth, rich, max_issue, max_frag, start=None, closi
                 pend = st["infl"] + st["wait"]
                 for r in pend:
                     letters.append(["C", r])
+                if cap >= 2 and st["infl"]:
+                    letters.append(["CD", st["infl"][0], 10 * i])     # oldest in-flight cancelled + its response, same turn
                 comp = [r for r in range(st["next"]) if r not in pend]
                 if comp:
                     letters.append(["C", comp[0]])
@@ -928,6 +957,12 @@ DIRECTED = [
     (1, [["I"], ["I"], ["A", 7], ["LC", 1], ["I"], ["A", T30]]),
     (2, [["I"], ["I"], ["I"], ["D", [["H", 1]]], ["LC", 0], ["D", [["H", 2]]], ["I"]]),
     (1, [["I"], ["C", 0], ["LC", 0], ["I"]]),
+    # same-turn cancel + response (seed C08-B class): the cancelled request's response must reach nobody
+    (2, [["I"], ["I"], ["CD", 0, 1]]),
+    (2, [["I"], ["I"], ["I"], ["CD", 0, 1], ["I"]]),
+    (3, [["I"], ["I"], ["I"], ["D", [["H", 1]]], ["CD", 1, 2], ["D", [["H", 3]]]]),
+    (1, [["I"], ["I"], ["CD", 0, 1], ["I"]]),
+    (2, [["I"], ["I"], ["I"], ["CD", 2, 1], ["D", [["H", 2]]], ["D", [["H", 3]]]]),
     # long-lived connection: several epochs on one HomeKitConnection object
     (1, [["I"], ["C", 0], ["D", [["H", 5]]], ["I"], ["R"], ["I"], ["I"], ["D", [["H", 6]]], ["LL"], ["PC"], ["R"], ["R"], ["I"],
          ["D", [["E", 9], ["H", 7]]]]),
@@ -1136,7 +1171,7 @@ def _work(case):
                 why = f"the event loop {'spun without virtual time advancing' if type(e).__name__ == 'Livelock' else 'stalled'} ({type(e).__name__})"
                 return dict(orc=[("livelock", why)], diff=None, outs=0, closed=False, crash=False, outcomes=[], impl=None)
             raise
-        msteps, mstate = parse_model(ans, len(hist) + 1)
+        msteps, mstate = parse_model_h(ans, hist + [["A", TAIL]])
         orc = oracle(hist, res, cap)
         diff = compare(hist, res, msteps)
         outcomes = sorted({t.split(":")[1].split("@")[0].rstrip("0123456789")
@@ -1172,10 +1207,10 @@ def remove_events(hist, idxs):
     for j, e in enumerate(hist):
         if j in idxs:
             continue
-        if e[0] == "C":
+        if e[0] in ("C", "CD"):
             if e[1] in gone:
                 continue
-            out.append(["C", e[1] - sum(1 for g in gone if g < e[1])])
+            out.append([e[0], e[1] - sum(1 for g in gone if g < e[1])] + list(e[2:]))
         else:
             out.append(list(e))
     return out
@@ -1318,7 +1353,7 @@ def run(ctx):
                 for k, w in oracle(small, res2, cap) or orc:
                     viols.append(violation(k, f"{w}  [cap={cap} history={json.dumps(small)}]", True, cap=cap, history=small,
                                            impl=[s["out"] for s in res2["steps"]] + [res2["tail"]],
-                                           model=parse_model(drv.batch([model_line(cap, small + [["A", TAIL]])])[0], len(small) + 1)[0],
+                                           model=parse_model_h(drv.batch([model_line(cap, small + [["A", TAIL]])])[0], small + [["A", TAIL]])[0],
                                            original_history=hist))
             elif diff is not None:
                 n_mismatch += 1
@@ -1327,14 +1362,14 @@ def run(ctx):
                     def differs(h2, cap=cap):
                         try:
                             r2 = run_impl(h2, cap)
-                            m2 = parse_model(drv.batch([model_line(cap, h2 + [["A", TAIL]])])[0], len(h2) + 1)[0]
+                            m2 = parse_model_h(drv.batch([model_line(cap, h2 + [["A", TAIL]])])[0], h2 + [["A", TAIL]])[0]
                             return compare(h2, r2, m2) is not None
                         except Exception:  # noqa
                             return False
                     small = shrink_hist(hist, differs)
                     r2 = run_impl(small, cap)
                     o2 = oracle(small, r2, cap)
-                    m2 = parse_model(drv.batch([model_line(cap, small + [["A", TAIL]])])[0], len(small) + 1)[0]
+                    m2 = parse_model_h(drv.batch([model_line(cap, small + [["A", TAIL]])])[0], small + [["A", TAIL]])[0]
                     d2 = compare(small, r2, m2)
                     if o2:
                         for k, w in o2:
